@@ -68,10 +68,10 @@ Print Assumptions C06_hooked_complete_flag_sound.
    [wfc]: a traversal's range covers its root name and starts with it, a boolean literal's range covers its
    text, an object item's key ends no later than its value, a call's name lies inside the call, a closing parenthesis is
    at most one byte (checked by the harness on every file).  Type declarations included. *)
-Theorem C06_value_candidates_reach_cursor : forall prefill file opens empties vals funcs parens cparens fname refs p fuel c e l,
+Theorem C06_value_candidates_reach_cursor : forall prefill file opens empties vals funcs parens cparens fname refs fns p fuel c e l,
   (forall r o cl, lookup_parens cparens r = Some (o, cl) -> (re cl <= rs cl + 1)%Z) ->
   cexpr_wf vals e ->
-  value_cands prefill file opens empties vals funcs parens cparens fname refs p fuel c e = Some (Some l) ->
+  value_cands prefill file opens empties vals funcs parens cparens fname refs fns p fuel c e = Some (Some l) ->
   Forall (fun i => (vi_sb i <= p_byte p <= vi_eb i)%Z) l.
-Proof. intros prefill file opens empties vals funcs parens cparens fname refs p fuel c e l Hp Hw H. exact (value_cands_reach_cursor prefill file opens empties vals funcs parens cparens fname refs p Hp fuel c e Hw l H). Qed.
+Proof. intros prefill file opens empties vals funcs parens cparens fname refs fns p fuel c e l Hp Hw H. exact (value_cands_reach_cursor prefill file opens empties vals funcs parens cparens fname refs fns p Hp fuel c e Hw l H). Qed.
 Print Assumptions C06_value_candidates_reach_cursor.
